@@ -212,12 +212,18 @@ def check(case: Dict[str, Any]) -> Outcome:
         return check_static()
     if case.get("part") == "b":
         return check_serialiser(case)
+    if "seq" in case:
+        return check_sequence(case)
     out = Outcome()
     target, w, backend = case["target"], case["data"], case.get("backend", "pydantic")
-    cls = models()[target]
     wp, wf = workers()
     wk = wp if backend == "pydantic" else wf
     r = wk.request({"op": "validate", "cases": [(target, "validate", w)]})[0]
+    return oracle_a(out, target, w, backend, r)
+
+
+def oracle_a(out: Outcome, target: str, w: Any, backend: str, r: Any) -> Outcome:
+    cls = models()[target]
     out.nontrivial = _has_alias_or_extra(cls, w)
     out.classes = (f"backend:{backend}", f"result:{r[0]}")
     if r[0] != "accept":
@@ -247,6 +253,41 @@ def check(case: Dict[str, Any]) -> Outcome:
         what = "attribute-name-in-dump" if "attribute name" in inv else "added-member-not-a-default"
         out.fail(f"{what}:{backend}", f"{name}: {inv}")
     return out
+
+
+def check_sequence(case: Dict[str, Any]) -> Outcome:
+    """Several (class, wire object) validations in ONE fresh backend process, in the given order:
+    catches state that leaks between model classes (caches keyed too coarsely)."""
+    backend = case.get("backend", "fallback")
+    out = Outcome()
+    wk = Worker(backend == "fallback", True)
+    try:
+        rs = wk.request({"op": "validate", "cases": [(t, "validate", w) for t, w in case["seq"]]})
+    finally:
+        wk.close()
+    nt = False
+    for (t, w), r in zip(case["seq"], rs):
+        o = Outcome()
+        oracle_a(o, t, w, backend, r)
+        nt = nt or o.nontrivial
+        for sig, detail in o.failures:
+            out.fail(sig + ":order-dependent" if not _fails_alone(t, w, backend) else sig, f"in sequence {[x[0].split(':')[-1] for x in case['seq']]}: {detail}")
+        if o.failures:
+            break
+    out.nontrivial = nt
+    out.classes = (f"sequence:{backend}", f"len:{len(case['seq'])}")
+    return out
+
+
+def _fails_alone(target: str, w: Any, backend: str) -> bool:
+    wk = Worker(backend == "fallback", True)
+    try:
+        r = wk.request({"op": "validate", "cases": [(target, "validate", w)]})[0]
+    finally:
+        wk.close()
+    o = Outcome()
+    oracle_a(o, target, w, backend, r)
+    return bool(o.failures)
 
 
 # --------------------------------------------------------------------------------------- part (b)
@@ -426,13 +467,43 @@ def job_serialisers(col: Collector, seed: int, tier: str, shard: int, nshards: i
         col.extra["serialisers"] = [s["name"] for s in SERIALISERS]
 
 
-JOBS = {"models": job_models, "serialisers": job_serialisers}
+def same_named_groups() -> List[List[str]]:
+    by: Dict[str, List[str]] = {}
+    for t in models():
+        by.setdefault(t.split(":")[-1], []).append(t)
+    return [v for v in by.values() if len(v) > 1]
+
+
+@st.composite
+def sequence_cases(draw, backend: str):
+    groups = same_named_groups()
+    pool = [t for g in groups for t in g]
+    others = [t for t in sorted(models()) if t not in pool]
+    k = draw(st.integers(2, 5))
+    targets = [draw(st.sampled_from(pool)) for _ in range(k)]
+    if draw(st.booleans()):
+        targets.insert(draw(st.integers(0, len(targets))), draw(st.sampled_from(others)))
+    seq = [[t, draw(wire_strategy(models()[t], 2, all_aliases=True))] for t in targets]
+    return {"seq": seq, "backend": backend}
+
+
+def job_sequences(col: Collector, seed: int, tier: str, shard: int, n: int) -> None:
+    backend = "fallback" if shard % 4 else "pydantic"
+    if not same_named_groups():
+        col.uncovered.append("no same-named model classes: cross-class sequence job has nothing to do")
+        return
+    hyp_run(col, seed * 1000 + 900 + shard, sequence_cases(backend), check, n)
+    if shard == 0:
+        col.extra["same_named_model_groups"] = [[t for t in g] for g in same_named_groups()]
+
+
+JOBS = {"models": job_models, "serialisers": job_serialisers, "sequences": job_sequences}
 
 
 def jobs(tier: str):
     if tier == "quick":
-        return [("models", {"shard": s, "nshards": 8, "n": 60}) for s in range(8)] + [("serialisers", {"shard": s, "nshards": 4, "n": 120}) for s in range(4)]
-    return [("models", {"shard": s, "nshards": 10, "n": 1500}) for s in range(10)] + [("serialisers", {"shard": s, "nshards": 5, "n": 2500}) for s in range(5)]
+        return [("models", {"shard": s, "nshards": 8, "n": 60}) for s in range(8)] + [("serialisers", {"shard": s, "nshards": 4, "n": 120}) for s in range(4)] + [("sequences", {"shard": s, "n": 10}) for s in range(4)]
+    return [("models", {"shard": s, "nshards": 8, "n": 1500}) for s in range(8)] + [("serialisers", {"shard": s, "nshards": 4, "n": 2500}) for s in range(4)] + [("sequences", {"shard": s, "n": 300}) for s in range(4)]
 
 
 def shrink(signature: str, seed: int):
